@@ -201,7 +201,7 @@ def run(chk: core.Check, tier: str, seed: int) -> None:
     for lit in lits:
         res, val = observe(jp, lit)
         recs.append({"op": "lit", "q": [], "text": core.enc_text(lit), "res": res, "val": val if res == "decoded" else [],
-                     "cls": val if res == "rejected" else ""})
+                     "cls": val if res == "rejected" else "", "nonjp": res == "rejected" and str(val).startswith("NON-JSONPATH")})
         if res == "decoded":
             chk.nontrivial.add(lit)
     chk.notes["code_point_form_observations"] = n_cp
